@@ -265,6 +265,10 @@ func run(c *Ctx) {
 	if c.Thorough() {
 		nh = 8000
 	}
+	onlyLocal := os.Getenv("VERIF_C18_PHASE") == "local" // debugging aid: only the local-listener histories
+	if onlyLocal {
+		nh = 0
+	}
 	for h := 0; h < nh; h++ {
 		r := NewRng(c.Seed*7919 + uint64(h))
 		term, label, nt := runHistory(im, r, h, c.Seed)
@@ -284,9 +288,11 @@ func run(c *Ctx) {
 		cf.Add("(XSeq "+term+")", label)
 		im.Count(label, nt)
 	}
-	concurrentAds(c, im, cf)
-	periodicVsClose(c, im)
-	meshScenarios(c, im)
+	if !onlyLocal {
+		concurrentAds(c, im, cf)
+		periodicVsClose(c, im)
+		meshScenarios(c, im)
+	}
 	Must(cf.Write())
 	Must(im.Write(c.Out))
 }
@@ -532,6 +538,9 @@ func runLocalHistory(im *Impl, r *Rng, h int, seed uint64) (string, string, bool
 		return ads, CoqList(rels), ct
 	}
 	hlen := 2 + r.Intn(10)
+	var firstOpen time.Time // opening a listener asks for a re-advertisement 5 s later (tickrunner): a history
+	// that has not finished by then (a badly loaded machine) sees that timer's messages, which are not part
+	// of the step-by-step model; such a history is not compared
 	for i := 0; i < hlen; i++ {
 		svc := svcs[r.Intn(len(svcs))]
 		switch x := r.Intn(100); {
@@ -542,6 +551,9 @@ func runLocalHistory(im *Impl, r *Rng, h int, seed uint64) (string, string, bool
 				continue
 			}
 			open[svc] = pc
+			if firstOpen.IsZero() {
+				firstOpen = time.Now()
+			}
 			ads, rels, _ := observe()
 			t := ads["self"][svc][0]
 			hs = append(hs, fmt.Sprintf("(EvLocalAdd %d %d %d, {| ao_ads := %s; ao_relays := %s |})", nm.id("svc:"+svc), t, body, coqAds(nm, ads), rels))
@@ -587,6 +599,10 @@ func runLocalHistory(im *Impl, r *Rng, h int, seed uint64) (string, string, bool
 		cl[i] = CoqN(nm.id(c))
 	}
 	label := fmt.Sprintf("local history seed=%d#%d kinds=%v", seed, h, kinds)
+	if !firstOpen.IsZero() && time.Since(firstOpen) > 4*time.Second {
+		im.Hist("local-history:not-compared-too-slow")
+		hs = nil
+	}
 	im.Hist("local-history")
 	return fmt.Sprintf("(CEv {| ec_conns := %s; ec_hist := %s |})", CoqList(cl), CoqList(hs)), label, echoAfterClose
 }
